@@ -52,6 +52,30 @@ def decScope (s : String) : D Scope :=
   | "body" => pure .body
   | _ => throw s!"unknown scope {s}"
 
+def strsOf (j : Json) : D (List Str) := do
+  let a ← j.getArr?
+  a.toList.mapM (fun x => do
+    let s ← x.getStr?
+    pure s.toList)
+
+partial def decStmt (j : Json) : D Stmt := do
+  let k ← (← j.getArrVal? 0).getStr?
+  let name ← (← j.getArrVal? 1).getStr?
+  match k with
+  | "read" => pure (Stmt.read name.toList)
+  | "import" => pure (Stmt.importAs name.toList)
+  | "set" => pure (Stmt.set name.toList (← strsOf (← j.getArrVal? 2)))
+  | "for" | "macro" | "with" =>
+    let l ← strsOf (← j.getArrVal? 2)
+    let body ← (← (← j.getArrVal? 3).getArr?).toList.mapM decStmt
+    pure (if k == "for" then Stmt.forLoop name.toList l body
+          else if k == "macro" then Stmt.macro name.toList l body
+          else Stmt.withBlock name.toList l body)
+  | _ => throw s!"unknown statement {k}"
+
+def decStmts (j : Json) : D (List Stmt) := do
+  (← j.getArr?).toList.mapM decStmt
+
 def handle (op : String) (a : Json) : Except String Json := do
   match op with
   | "assemble" | "expand" =>
@@ -70,6 +94,15 @@ def handle (op : String) (a : Json) : Except String Json := do
     let n ← getStr a "n"
     let d ← getStr a "d"
     return ok (str (renderRef user internal builtins sc n d)) [if (lookupVar internal n).isSome then "internal" else if (lookupVar user n).isSome then "user" else "default"]
+  | "registered" =>
+    let tpl ← decStmts (← a.getObjVal? "template")
+    let g ← getStrList a "env_globals"
+    return ok (arr ((registeredParams g tpl).map str))
+  | "unused" =>
+    let ts ← (← getArr a "templates").mapM decStmts
+    let g ← getStrList a "env_globals"
+    let user ← getStrList a "user"
+    return ok (arr ((unusedParams g ts user).map str)) [if (unusedParams g ts user).isEmpty then "all-read" else "some-unused"]
   | _ => throw s!"unknown op {op}"
 
 end Drivers.TrackTemplate
